@@ -94,7 +94,8 @@ Definition interpolated_species (a b : species) (n : nat) : option (list species
 
 (* ============================================================================================ *)
 (* _max_atom_distance_between_images and partition, over an abstract image type                   *)
-(* result of the max-distance function: -inf | a value | np.max of an empty selection raises ValueError *)
+(* result of the max-distance function: -inf | a value | an empty atom selection raises
+   (numpy: IndexError when indexing with the empty float array, ValueError for np.max of nothing) *)
 Inductive mdres := MDNegInf | MDVal (d : Qc) | MDErr.
 
 Section Partition.
